@@ -388,8 +388,9 @@ def _write(op4, path, case, inputs, binary):
     with warnings.catch_warnings():
         warnings.simplefilter("ignore")
         forms = case["forms"]
-        op4.write(path, list(case["names"]), list(inputs), binary=binary, digits=case["digits"],
-                  endian=case["endian"], sparse=case["opt"], forms=None if all(f is None for f in forms) else list(forms))
+        kw = {} if case.get("default_digits") else {"digits": case["digits"]}
+        op4.write(path, list(case["names"]), list(inputs), binary=binary,
+                  endian=case["endian"], sparse=case["opt"], forms=None if all(f is None for f in forms) else list(forms), **kw)
 
 
 def _canon_loaded(names, mats, forms, mtypes):
@@ -479,6 +480,209 @@ def _multi_string(case):
     return False
 
 
+
+# ---------------------------------------------------------------------------------------------
+# ASCII reader: inputs for the Lean reader model (Model/Op4Ascii.lean)
+
+
+def _digit_sweep_cases(rng):
+    """every digits value 1..16 (plus 17, 20, 30, 73 and the default), the three layouts (and 'auto'), real and
+    complex, ndarray and scipy-sparse: 3-digit exponents of both signs, subnormals, -0.0, an empty column, an
+    all-zero matrix, names of length 1..8"""
+    pos3 = [2.5e120, 2.5e-120, 1.7976931348623157e308, 5e-324, 1e-310, 9.9999999999999999e99, 1e100, 9.99999999999e-101]
+    out = []
+    k = 0
+    for digits in list(range(1, 17)) + [17, 20, 30, 73, None]:
+        for opt in ("dense", "bigmat", "nonbigmat", "auto"):
+            k += 1
+            cplx = (k % 3 == 0)
+            rows, cols = 7, 4
+            D = np.zeros((rows, cols), complex if cplx else float)
+            vals = pos3 + [-1.5, -9.5e-99, -9.99e99, 0.1, 2.0 ** 0.5, 123456789.123456789]
+            rng.shuffle(vals)
+            D[0, 0], D[1, 0], D[2, 0], D[5, 0], D[6, 0] = vals[0], vals[1], vals[2], vals[3], vals[4]
+            D[1:4, 1] = vals[5:8]
+            D[rows - 1, 3] = vals[8]
+            if cplx:
+                D[1, 0] = complex(vals[1], vals[9])
+                D[5, 0] = complex(0.0, vals[10])
+                if k % 4 != 1:
+                    D[2, 1] = complex(vals[6], -0.0)  # (an ndarray input: scipy-sparse inputs are generated without -0.0)
+            kind = "sparse" if k % 4 == 1 else "ndarray"
+            if kind == "ndarray":
+                D[4, 0] = -0.0  # stays inside the dense record of column 0, dropped by the sparse layouts
+            Z = np.zeros((3, 2), complex if (k % 5 == 0) else float)
+            name = "abcdefgh"[: 1 + (k % 8)]
+            out.append({"mats": [{"kind": kind, "cplx": cplx, "D": D},
+                                 {"kind": "ndarray", "cplx": bool(k % 5 == 0), "D": Z}],
+                        "names": [name, "Z_%d" % (k % 10)], "forms": [None, 2], "opt": opt, "endian": "<",
+                        "digits": 16 if digits is None else digits, "default_digits": digits is None})
+    return out
+
+
+def _gen_adec(rng, maxdig):
+    """(neg, exp, digits) of one printed value of a variant file"""
+    t = rng.random()
+    if t < 0.08:
+        return (rng.randint(0, 1), 0, [0] * rng.randint(1, maxdig))
+    nd = rng.randint(1, maxdig)
+    digits = [rng.randint(1, 9)] + [rng.randint(0, 9) for _ in range(nd - 1)]
+    if t < 0.3:
+        exp = rng.choice([-1, 1]) * rng.randint(100, 330)      # 3-digit exponents, under- and overflow of float()
+    else:
+        exp = rng.randint(-40, 40)
+    return (1 if rng.random() < 0.5 else 0, exp, digits)
+
+
+def _gen_vmat(rng, single, maxdig):
+    cplx = rng.random() < 0.35
+    mult = 2 if cplx else 1
+    lay = rng.choice("dbn")
+    rows = rng.choice([1, 2, 3, 5, 8, 12])
+    ncols = rng.choice([0, 1, 2, 3, 5])
+    neg = (lay == "b") or (lay == "d" and rng.random() < 0.15)
+    cols = []
+    for c in range(ncols):
+        if rng.random() < 0.25:
+            continue  # column absent from the file
+        strs = []
+        if lay == "d":
+            r0 = rng.randrange(rows)
+            L = rng.randint(1, rows - r0)
+            strs.append((r0, [_gen_adec(rng, maxdig) for _ in range(L * mult)]))
+        else:
+            r = rng.randint(0, 2)
+            while r < rows:
+                L = rng.randint(1, min(4, rows - r))
+                strs.append((r, [_gen_adec(rng, maxdig) for _ in range(L * mult)]))
+                r += L + rng.choice([0, 0, 1, 2, 3])  # adjacent strings happen
+            if not strs:
+                continue
+        cols.append((c, strs))
+    n = rng.randint(1, 8)
+    name = rng.choice(VALID_FIRST) + "".join(rng.choice(VALID_REST) for _ in range(n - 1))
+    if rng.random() < 0.6:
+        name = name.upper()
+    return {"name": name, "form": rng.choice([1, 2, 6, 8]), "cplx": cplx, "rows": rows, "ncols": ncols, "lay": lay,
+            "neg": neg, "cols": cols}
+
+
+def _gen_vcase(rng):
+    width = rng.choice([12, 14, 16, 16, 20, 23, 24, 26, 40])
+    perline = rng.randint(1, min(6, 80 // width))
+    single = rng.random() < 0.4
+    maxdig = min(width - 8, 20)
+    return {"perline": perline, "width": width, "useD": rng.random() < 0.4, "lead1P": rng.random() < 0.6,
+            "fmtD": rng.random() < 0.3, "lower": rng.random() < 0.25, "single": single,
+            "mats": [_gen_vmat(rng, single, maxdig) for _ in range(rng.choice([1, 1, 2, 3]))]}
+
+
+def _vcase_tokens(case):
+    t = ["enca", str(case["perline"]), str(case["width"])] + ["1" if case[k] else "0" for k in ("useD", "lead1P", "fmtD", "lower")]
+    t.append(str(len(case["mats"])))
+    for m in case["mats"]:
+        t += [m["name"].encode().hex(), str(m["form"]), "1" if m["cplx"] else "0", "1" if case["single"] else "0",
+              str(m["rows"]), str(m["ncols"]), m["lay"], "1" if m["neg"] else "0", str(len(m["cols"]))]
+        for c, strs in m["cols"]:
+            t += [str(c), str(len(strs))]
+            for r0, vals in strs:
+                t += [str(r0), str(len(vals))]
+                for neg, exp, digits in vals:
+                    t += [str(neg), str(exp), str(len(digits))] + [str(d) for d in digits]
+    return " ".join(t)
+
+
+def _vcase_expected(case):
+    """the logical content of a variant file, computed from the case alone (model-free): per matrix
+    (lower-case name, rows, ncols, form, mtype, dense array)"""
+    out = []
+    for m in case["mats"]:
+        mult = 2 if m["cplx"] else 1
+        X = np.zeros((m["rows"], m["ncols"]), complex if m["cplx"] else float)
+        for c, strs in m["cols"]:
+            for r0, vals in strs:
+                fl = [float(("-" if n else "") + str(d[0]) + "." + "".join(map(str, d[1:])) + "E%+d" % e) for n, e, d in vals]
+                for i in range(len(fl) // mult):
+                    X[r0 + i, c] = complex(fl[2 * i], fl[2 * i + 1]) if m["cplx"] else fl[i]
+        mtype = (3 if m["cplx"] else 1) + (0 if case["single"] else 1)
+        out.append((m["name"].lower(), m["rows"], m["ncols"], m["form"], mtype, X))
+    return out
+
+
+def _text_mutations(rng, text):
+    """texts derived from a well-formed ASCII file that exercise what the reader rejects or defaults: a cut at a line
+    boundary, lower case, the announced format removed, an empty line, trailing blanks on the title lines"""
+    lines = text.split("\n")
+    out = []
+    if len(lines) > 3:
+        k = rng.randint(1, len(lines) - 2)
+        out.append(("cut", "\n".join(lines[:k]) + "\n"))
+        k = rng.randint(1, len(lines) - 2)
+        out.append(("cut-noeol", "\n".join(lines[:k])))
+        k = rng.randint(1, len(lines) - 2)
+        out.append(("blank-line", "\n".join(lines[:k] + [""] + lines[k:])))
+    out.append(("lower", text.lower()))
+    import re as _re
+    out.append(("no-format", "\n".join(ln[:40] if _re.match(r"^[ \-0-9]{32}.{8}\S", ln) else ln for ln in lines)))
+    out.append(("title-blanks", "\n".join(ln + "   " if _re.match(r"^[ \-0-9]{32}.{8}\S", ln) else ln for ln in lines)))
+    return out
+
+
+def _ascii_loads(op4, p):
+    """what the real reader makes of the file: per read mode the canonical listing or 'error'; then dir"""
+    res = []
+    for flag in (False, True, None):
+        try:
+            with warnings.catch_warnings(), _TimeLimit(20):
+                warnings.simplefilter("ignore")
+                res.append(_canon_loaded(*op4.load(p, into="list", sparse=flag)))
+        except TimeoutError:
+            res.append("timeout")
+        except Exception:  # noqa: BLE001
+            res.append("error")
+    try:
+        with warnings.catch_warnings(), _TimeLimit(20):
+            warnings.simplefilter("ignore")
+            n_, s_, f_, t_ = op4.dir(p, verbose=False)
+        res.append([(a, int(b[0]), int(b[1]), int(c), int(d)) for a, b, c, d in zip(n_, s_, f_, t_)])
+    except TimeoutError:
+        res.append("timeout")
+    except Exception:  # noqa: BLE001
+        res.append("error")
+    return res
+
+
+def _model_listing(rep, parse):
+    if not rep.startswith("ok"):
+        return "error"
+    m = parse(rep)
+    if any(len(x) == 2 for x in m):
+        return "error"  # a put outside the matrix: IndexError / ValueError in the real reader
+    return m
+
+
+_FIELD_POOL = ["1.5E+00", "-2.50D-120", " 1.E5", ".5", "5.", ".", "", " ", "1e5", "1E+5 ", "+1.0E-05", "-0.000E+00", "1.0E", "1.0E+",
+               "1.0 E+00", "E+00", "1.0E+0x", "--1", "1.0E+00\n", "\n", " 12 ", "-7", "+3", "1_0", "0x10", "1.0E+400", "1.0E-400",
+               "9.999999999999999E+22", "4.9406564584124654E-324", "2.4703282292062327E-324", "2.4703282292062328E-324",
+               "1.7976931348623158E+308", "1.7976931348623159E+308", "0.000000000000000000000000001E+27", "00012", "1.5e+00", "\t1.0E+00\x0c"]
+
+
+def _rand_field(rng):
+    t = rng.random()
+    if t < 0.35:
+        return rng.choice(_FIELD_POOL)
+    if t < 0.8:
+        x = _rand_values(rng, 1, rng.choice(["bits", "normal", "special", "neg3"]))[0]
+        d = rng.randint(1, 17)
+        s = ("%" + "%d.%dE" % (d + 7, d)) % x
+        if rng.random() < 0.2:
+            s = s.replace("E", rng.choice(["e", "D", "E "]))
+        if rng.random() < 0.15:
+            i = rng.randrange(len(s) + 1)
+            s = s[:i] + rng.choice(" .-+E0\n") + s[i:]
+        return s
+    return "".join(rng.choice(" 0123456789.+-Ee") for _ in range(rng.randint(1, 12)))
+
 # ---------------------------------------------------------------------------------------------
 # correspondence
 
@@ -492,6 +696,184 @@ def _big_string_cases():
         out.append({"mats": [{"kind": "ndarray", "cplx": cplx, "D": D}], "names": ["big"], "forms": [2],
                     "opt": "nonbigmat", "endian": "<", "digits": 16})
     return out
+
+
+
+def _ascii_reader_streams(ctx, op4, drv, sc, ascii_texts):
+    """exact correspondence for the ASCII reader on inputs pyYeti's writer never produces"""
+    import io
+
+    rng = ctx.rng
+    # -- variant files from the format-only Lean encoder (Op4V.encAFile) ----------------------------------------
+    vcases = [_gen_vcase(rng) for _ in range(ctx.pick(350, 2500))]
+    texts = [bytes.fromhex(h).decode("latin1") for h in drv.ask([_vcase_tokens(c) for c in vcases])]
+    req, post = [], []
+    ntimeouts = 0
+
+    def add_file(stream, key, text, info):
+        nonlocal ntimeouts
+        p = sc.path()
+        with open(p, "w", newline="") as f:
+            f.write(text)
+        got = _ascii_loads(op4, p)
+        ntimeouts += got.count("timeout")
+        req.append("adec * " + text.encode("latin1").hex())
+        post.append((stream, key, got, info))
+
+    for c, text in zip(vcases, texts):
+        if ntimeouts >= 3:
+            break
+        add_file("avar", _vcase_tokens(c), text, c)
+    # -- mutated texts: what the reader rejects, and its defaults ------------------------------------------------
+    pool = list(ascii_texts) + [t for t in texts[: ctx.pick(80, 500)]]
+    for text in pool:
+        if ntimeouts >= 3:
+            break
+        for kind, t2 in _text_mutations(rng, text):
+            if len(t2) >= 16:
+                add_file("amut", (kind, t2), t2, kind)
+    # -- float(field), int(field) --------------------------------------------------------------------------------
+    flds = list(_FIELD_POOL) + [_rand_field(rng) for _ in range(ctx.pick(3000, 20000))]
+    for fld in flds:
+        try:
+            v = float(fld)
+            want = struct.unpack("<Q", struct.pack("<d", v))[0] if v == v and abs(v) != float("inf") or "n" not in fld.lower() else "outside"
+        except ValueError:
+            want = "ValueError"
+        if "_" in fld or "n" in fld.lower():
+            continue  # underscores / inf / nan: outside the model
+        req.append("afld " + (fld.encode("latin1").hex() or "-"))
+        post.append(("afld", fld, want, None))
+        ifld = fld
+        if rng.random() < 0.6:
+            ifld = rng.choice(["%d", "%8d", "%11d", "%-8d", "%+d", "%8d\n", " %d \n", "%d.", "- %d"]) % rng.choice(
+                [0, 1, -1, rng.randint(-99999999, 99999999), rng.randint(0, 1 << 40)])
+        try:
+            wi = str(int(ifld))
+        except ValueError:
+            wi = "ValueError"
+        req.append("aint " + (ifld.encode("latin1").hex() or "-"))
+        post.append(("aint", ifld, wi, None))
+    # -- the put functions on a block --------------------------------------------------------------------------------
+    for _ in range(ctx.pick(600, 4000)):
+        numlen = rng.choice([8, 12, 16, 23, 24])
+        cplx = rng.random() < 0.4
+        n = rng.randint(0, 7)
+        block = "".join((("%" + "%d.%dE" % (numlen, numlen - 7)) % x) for x in _rand_values(rng, n, rng.choice(["normal", "special", "bits+"])))
+        t = rng.random()
+        if t < 0.15:
+            block = block[: rng.randrange(len(block) + 1)]       # short block
+        elif t < 0.25:
+            block = block + "\n"
+        L = rng.choice([n, n, n, n + 1, max(n - 1, 0)])
+        X = ([], [], [])
+        try:
+            (op4.OP4._put_ascii_values_sparse_c if cplx else op4.OP4._put_ascii_values_sparse)(X, 2, 1, block, L, numlen)
+            if X[0] != list(range(2, 2 + (L // 2 if cplx else L))) or X[1] != [1] * len(X[0]):
+                want = "bad-index %r" % (X[:2],)
+            else:
+                want = " ".join(map(str, _bits(np.array(X[2], complex if cplx else float)))) if X[2] else ""
+        except ValueError:
+            want = "ValueError"
+        req.append("avals %d %d %d %s" % (cplx, numlen, L, block.encode("latin1").hex() or "-"))
+        post.append(("avals", (cplx, numlen, L, block), want, None))
+    # -- _get_ascii_block ----------------------------------------------------------------------------------------------
+    o = op4.OP4()
+    for _ in range(ctx.pick(600, 4000)):
+        numlen = rng.choice([3, 8, 16, 23])
+        perline = rng.randint(1, 5)
+        nl = rng.randint(0, 6)
+        lines = []
+        for i in range(nl):
+            k = perline if rng.random() < 0.7 else rng.randint(0, perline + 1)
+            lines.append("".join(rng.choice("0123456789.DE+- ") for _ in range(k * numlen)) + ("" if (i == nl - 1 and rng.random() < 0.3) else "\n"))
+        text = "".join(lines)
+        L = rng.randint(0, perline * nl + 2)
+        dformat = rng.random() < 0.5
+        o._fileh = io.StringIO(text, newline=None)
+        o._dformat = dformat
+        s_ = o._get_ascii_block(L, perline, perline * numlen)
+        used = text[: o._fileh.tell()].count("\n") + (1 if o._fileh.tell() == len(text) and text and not text.endswith("\n") else 0)
+        o._fileh = None
+        req.append("ablk %d %d %d %d %s" % (dformat, L, perline, numlen, text.encode("latin1").hex() or "-"))
+        post.append(("ablk", (dformat, L, perline, numlen, text), "%s- %d" % (s_.encode("latin1").hex(), used),
+                     {"dformat": dformat and "D" in text, "partial": L % perline != 0, "short": L > perline * nl}))
+
+    rep = drv.ask(req)
+    for (stream, key, impl, info), r in zip(post, rep):
+        ctx.case((stream, key), nontrivial=True, branch="stream:" + stream)
+        if stream in ("avar", "amut"):
+            parts = r.split(" ;; ")
+            model = ([_model_listing(x, _parse_dec) for x in parts[:3]] + [_model_listing(parts[3], _parse_dir)]) if len(parts) == 4 else r
+            if stream == "avar":
+                c = info
+                for m in c["mats"]:
+                    ctx.count("avar:" + {"d": "dense", "b": "bigmat", "n": "nonbigmat"}[m["lay"]])
+                    if m["cplx"]:
+                        ctx.count("avar:complex")
+                    if not m["cols"]:
+                        ctx.count("avar:all-zero-matrix")
+                    for _, strs in m["cols"]:
+                        mult = 2 if m["cplx"] else 1
+                        if any(a[0] + len(a[1]) // mult == b[0] for a, b in zip(strs, strs[1:])):
+                            ctx.count("avar:adjacent-strings")
+                        for _, vals in strs:
+                            for n_, e_, d_ in vals:
+                                if abs(e_) >= 100:
+                                    ctx.count("avar:3-digit-exponent")
+                                if e_ < -324 and any(d_):
+                                    ctx.count("avar:underflow-to-zero")
+                                if e_ > 309 and any(d_):
+                                    ctx.count("avar:overflow-to-inf")
+                ctx.count("avar:D-exponent" if c["useD"] else "avar:E-exponent")
+                ctx.count("avar:single" if c["single"] else "avar:double")
+                if c["lower"]:
+                    ctx.count("avar:lower-format")
+                if not c["lead1P"]:
+                    ctx.count("avar:no-1P")
+                if c["fmtD"]:
+                    ctx.count("avar:D-format")
+                if c["perline"] == 1:
+                    ctx.count("avar:perline-1")
+                inp = {"variant": key}
+            else:
+                ctx.count("amut:" + info)
+                ctx.count("amut:rejected" if impl[0] == "error" else "amut:accepted")
+                if info == "no-format" and impl[0] != "error":
+                    ctx.count("amut:defaults-used")
+                inp = {"text": key[1], "mutation": info}
+            if model != impl:
+                show = lambda v: (str(v)[:300] + "…") if len(str(v)) > 300 else v
+                ctx.disagree(stream, inp, show(impl), show(model))
+        elif stream == "afld":
+            if r == "ValueError":
+                model = r
+                ctx.count("afld:ValueError")
+            else:
+                model = int(r.split()[3])
+                ctx.count("afld:value")
+            if model != impl:
+                ctx.disagree("afld", {"field": key}, impl, r)
+        elif stream == "aint":
+            ctx.count("aint:ValueError" if r == "ValueError" else "aint:value")
+            if r != impl:
+                ctx.disagree("aint", {"field": key}, impl, r)
+        elif stream == "avals":
+            if r == "ValueError":
+                ctx.count("avals:ValueError")
+            if key[0]:
+                ctx.count("avals:complex")
+            if r != impl:
+                ctx.disagree("avals", {"cplx": key[0], "numlen": key[1], "L": key[2], "block": key[3]}, impl, r)
+        elif stream == "ablk":
+            if info["dformat"]:
+                ctx.count("ablk:dformat")
+            if info["partial"]:
+                ctx.count("ablk:partial-last-line")
+            if info["short"]:
+                ctx.count("ablk:short-file")
+            if r != impl:
+                ctx.disagree("ablk", {"dformat": key[0], "L": key[1], "perline": key[2], "numlen": key[3], "text": key[4]}, impl, r)
 
 
 def correspondence(ctx):
@@ -538,6 +920,8 @@ def correspondence(ctx):
             vstyle = rng.choice(["int", "normal", "bits", "special", "neg3", "normal", "bits+"])
             cases.append(_gen_file(rng, vstyle))
         cases += _big_string_cases()
+        cases += _digit_sweep_cases(rng)
+        ascii_texts = []
         ntimeouts = 0
         for case in cases:
             if ntimeouts >= 3:
@@ -592,6 +976,14 @@ def correspondence(ctx):
                     impl = "exception:" + type(ex).__name__
                 req.append("asc %d %d %s" % (case["digits"], len(case["mats"]), spec))
                 post.append(("asc", case, impl))
+                if not impl.startswith("exception"):
+                    # the Lean ASCII reader on the text pyYeti wrote == what pyYeti reads from it
+                    got = _ascii_loads(op4, p)
+                    ntimeouts += got.count("timeout")
+                    req.append("adec * " + impl)
+                    post.append(("aread", case, got))
+                    if len(ascii_texts) < ctx.pick(60, 400) and rng.random() < 0.3:
+                        ascii_texts.append(bytes.fromhex(impl).decode("latin1"))
 
         rep = drv.ask(req)
         for (stream, inp, impl), r in zip(post, rep):
@@ -628,6 +1020,17 @@ def correspondence(ctx):
                                 ctx.count("read:%s-%s" % (stream, "sparse" if d_[5] else "dense"))
                 elif stream == "dir":
                     model = _parse_dir(r)
+                elif stream == "aread":
+                    parts = r.split(" ;; ")
+                    if len(parts) != 4:
+                        model = r
+                    else:
+                        model = [_model_listing(x, _parse_dec) for x in parts[:3]] + [_model_listing(parts[3], _parse_dir)]
+                        d_ = case["digits"]
+                        ctx.count("digits:" + ("default" if case.get("default_digits") else str(d_) if d_ <= 16 else ">16"))
+                        ctx.count("aread:" + case["opt"] + ("-complex" if any(m["cplx"] for m in case["mats"]) else "-real"))
+                        if model[0] == "error":
+                            ctx.count("aread:rejected")
                 else:
                     model = r
                 if model != impl:
@@ -636,6 +1039,7 @@ def correspondence(ctx):
                 elif stream == "enc" and len(ctx.samples) < 4 and impl != "struct_error":
                     ctx.sample({"names": case["names"], "opt": case["opt"], "endian": case["endian"],
                                 "shapes": [list(m["D"].shape) for m in case["mats"]], "bytes": len(impl) // 2})
+        _ascii_reader_streams(ctx, op4, drv, sc, ascii_texts)
         ctx.extra["first_disagreements"] = [
             {"stream": d["stream"], "impl": str(d["impl"])[:400], "model": str(d["model"])[:400],
              "input": {k: v for k, v in d["input"].items() if k != "mats"} if isinstance(d["input"], dict) else d["input"],
@@ -645,7 +1049,20 @@ def correspondence(ctx):
             ctx.require_branches(["stream:colstats", "stream:fmt", "stream:enc", "stream:dec-d", "stream:dec-s",
                               "stream:dec-a", "stream:dir", "stream:asc", "branch:struct_error",
                               "branch:fmt-overwide", "opt:auto", "opt:dense", "opt:bigmat", "opt:nonbigmat",
-                              "kind:sparse-complex", "kind:ndarray-real", "read:dec-a-sparse", "read:dec-a-dense"])
+                              "kind:sparse-complex", "kind:ndarray-real", "read:dec-a-sparse", "read:dec-a-dense",
+                              "stream:aread", "aread:rejected", "aread:dense-real", "aread:dense-complex",
+                              "aread:bigmat-real", "aread:bigmat-complex", "aread:nonbigmat-real",
+                              "aread:nonbigmat-complex", "digits:default", "digits:>16"]
+                             + ["digits:%d" % d for d in range(1, 17)]
+                             + ["stream:avar", "avar:dense", "avar:bigmat", "avar:nonbigmat", "avar:D-exponent",
+                                "avar:E-exponent", "avar:single", "avar:double", "avar:complex", "avar:lower-format",
+                                "avar:no-1P", "avar:D-format", "avar:3-digit-exponent", "avar:underflow-to-zero",
+                                "avar:overflow-to-inf", "avar:adjacent-strings", "avar:all-zero-matrix",
+                                "avar:perline-1", "stream:amut", "amut:cut", "amut:cut-noeol", "amut:blank-line",
+                                "amut:lower", "amut:no-format", "amut:title-blanks", "amut:defaults-used",
+                                "amut:rejected", "amut:accepted", "stream:afld", "afld:ValueError", "afld:value",
+                                "stream:aint", "aint:ValueError", "aint:value", "stream:avals", "avals:ValueError", "avals:complex",
+                                "stream:ablk", "ablk:dformat", "ablk:partial-last-line", "ablk:short-file"])
     finally:
         sc.close()
 
